@@ -652,8 +652,8 @@ class Engine:
         env = s.env
         env[0] = dict(env[0]); env[0]['!last2'] = env[0].get('!last'); env[0]['!last'] = (p, v, sz, True)
     def tset(s, t, key, v, g, w):
-        st = s.tstate[t]; o = st.get(key)
-        st[key] = v if (o is None or g is True) else ite(g, v, o, w)
+        st = s.tstate[t]; o = st.get(key, 0)       # unset thread-state words read as 0 (not waiting / time 0 / no exception)
+        st[key] = v if g is True else ite(g, v, o, w)
     def tsetg(s, t, key, v, g):
         st = s.tstate[t]; o = st.get(key, False)
         st[key] = ite_g(g, v, o)
